@@ -156,7 +156,9 @@ led_alloc(size_t sz, uint64_t key)
 	}
 	vf_fill(nng_msg_body(m), sz, key);
 	pthread_mutex_lock(&led_mx);
-	if (led_find(m) >= 0) {
+	// (an entry in L_BUSY with this address is a send that the library has
+	// already consumed and freed, only its completion is not reported yet)
+	if (led_find_st(m, L_APP) >= 0) {
 		pthread_mutex_unlock(&led_mx);
 		vf_violation("C03/ownership/alloc-returned-app-owned-msg", "%s: nng_msg_alloc returned %p which the application still owns", prog_tag, (void *) m);
 		return NULL;
@@ -2278,7 +2280,7 @@ run_random_program(long idx)
 	int              task = tt[vf_below(&r, 3)], expi = (int) vf_range(&r, 1, 2), poll = (int) vf_range(&r, 1, 2);
 	snprintf(prog_tag, sizeof(prog_tag), "program %ld", idx);
 	vf_case_begin(idx, "random program: %ld calls, %d driver thread(s)%s, pools %d/%d/%d", ops_target, nthr, race_prog ? ", closes race with pending operations" : "", task, expi, poll);
-	vf_watchdog(40);
+	vf_watchdog(30);
 	vf_nng_init(task, expi, poll);
 	for (int i = 0; i < nthr; i++) {
 		T[i].id = i;
@@ -2306,7 +2308,7 @@ run_random_program(long idx)
 		for (int i = 0; i < nthr; i++) pthread_join(th[i], NULL);
 	}
 	vf_stat("calls", atomic_load(&ops_done) > ops_target ? ops_target : atomic_load(&ops_done));
-	vf_watchdog(40);
+	vf_watchdog(30);
 	teardown(&T[0]);
 	finish_program();
 	if ((idx & 63) == 0) {
@@ -2411,7 +2413,7 @@ run_matrix_case(long idx, const mpair *mp, int pos, int side, const optdef *o, l
 	model_reset();
 	snprintf(prog_tag, sizeof(prog_tag), "matrix %s %s=%s@%s/%c", mp->name, o->tag, vt, posn, "AB"[side]);
 	vf_case_begin(idx, "matrix: pair %s over %s, set %s=%s on side %c at position %s of script %s", mp->name, vf_tran_names[tran], o->tag, vt, "AB"[side], posn, mp->script);
-	vf_watchdog(40);
+	vf_watchdog(30);
 	vf_nng_init(2, 1, 1);
 	memset(X, 0, sizeof(X));
 	for (int k = 0; k < 2; k++) {
